@@ -33,13 +33,17 @@ TRUSTED = [
 ASSUMPTIONS = [
     "theorems are about validate(print f, f) for fact-annotated forests f; that HedString(text) yields this forest "
     "with these facts is the correspondence run (and C02/C03 for the parser/resolver)",
-    "valid_no_error is proved for the string, character, resolution, per-tag, Def, group-placement, required and "
-    "unique checks; the duplicate / Duration / Onset checks of the full phase enter as explicit hypotheses "
-    "(C01_valid_no_error_partial); the repeated tag/group rule and the temporal group shapes are covered by "
-    "correspondence and kernel-evaluated instances only",
+    "valid_no_error is proved in full for ConformingFull = per-tag conformity + placement (at most one "
+    "top-level-group tag per top-level group: the Delay + second temporal tag combination the validator also accepts is "
+    "outside the proved grammar, it is covered by the correspondence run) + required/unique + no two siblings with "
+    "the same canonical (case-folded, order-free) text + well-shaped Duration/Delay and Onset/Offset/Inset groups",
+    "per-rule theorems are stated on the mutated annotation (its other tags individually conforming: "
+    "C01_reach_phase1/3, C01_reach_full_phase); the relational Mut formulation is proved for the string-level rules "
+    "(C01_mutation_reports_code_string_level)",
     "the model follows /repo HEAD incl. the fix: commits 5df7886 (parenthesis nesting), 7597eca + 2492808 (canonical "
     "duplicate detection, case-folded tag equality) and cbb8087 (Def-expand compared up to sibling order, seen through "
-    "the _validate_def_contents fact)",
+    "the _validate_def_contents fact); the duplicate-check theorems reuse C04's string order, stable-sort facts and "
+    "unique decoding of canonical keys (Proofs/DupsProofs.v)",
 ]
 
 QUICK_SCHEMAS = ["8_3_0", "score_1_1_0", "8_1_0"]
@@ -252,7 +256,7 @@ def corpus_cases():
     add("8_3_0", "((Blue,Red),Def-expand/MyDef)", False, None, "v_defexpand_reordered")
     add("8_3_0", "(Red,Blue),(Green),(Blue,Red)", False, "TAG_EXPRESSION_REPEATED", "repeat_group_permuted")
     add("8_3_0", "Label/abc, Property/Informational-property/Label/ABC", False, "TAG_EXPRESSION_REPEATED", "repeat_tag")
-    add("8_1_0", "Temperature/3 degree Celsius", False, None, "v_unit_with_blank", known="C01-F3")
+    add("8_1_0", "Temperature/3 degree Celsius", False, None, "v_unit_with_blank")   # former C01-F3 (fixed 0669633)
     return cs
 
 
@@ -279,8 +283,7 @@ def gen_cases(tier, seed, keys, n_random):
                 n, u = rng.choice(bl)
                 t2 = G.deep(tree)
                 t2.insert(rng.randint(0, len(t2)), G.form_of(rng, n) + "/3 " + u)
-                cases.append(dict(schema=key, text=G.render(t2, rng), ph=ph, expect=None, rule="v_unit_with_blank",
-                                  known="C01-F3"))
+                cases.append(dict(schema=key, text=G.render(t2, rng), ph=ph, expect=None, rule="v_unit_with_blank"))
             if V.has_defs and rng.random() < 0.05:
                 t2 = G.deep(tree)
                 t2.insert(rng.randint(0, len(t2)), rng.choice([[["Blue", "Red"], "Def-expand/AltDef"],
@@ -371,8 +374,7 @@ def oracle(case, r, res):
         return False
     if case["expect"] is None:
         if errs:
-            f = fid if (fid == "C01-F3" and set(errs) == {"UNITS_INVALID"}) else None
-            res.report("conforming-no-error", cc, f"errors={sorted(set(errs))}", fid=f)
+            res.report("conforming-no-error", cc, f"errors={sorted(set(errs))}")
             return False
     elif case["expect"] not in errs:
         res.report("mutation-reports-code", cc, f"expected {case['expect']} among errors={sorted(set(errs))}")
